@@ -27,10 +27,10 @@ from . import shared
 
 
 def check(repo: Repo, R) -> None:
-    inverse_tables(repo, R)
-    field_coverage(repo, R)
-    variant_coverage(repo, R)
-    order(repo, R)
+    R.run(inverse_tables, repo, R)
+    R.run(field_coverage, repo, R)
+    R.run(variant_coverage, repo, R)
+    R.run(order, repo, R)
     # connection targets are looked up by name in the module's own namespace of HDL objects (every legal name is there;
     # Python attribute lookup would find methods and properties instead, and skips names with a leading underscore)
     fct = repo.func(F_IMPORT, "import_connection_target")
